@@ -4,7 +4,7 @@ from lib import *
 import progen
 import runlib
 
-THEOREMS = ["Types.Ty.access_path_accepted", "Types.Ty.inner_path_isLike", "Types.Ty.isLike_conc", "CF.control_flow_lowering_correct", "CF.lowering_correct", "CF.sim", "CF.scoper_accepted_never_stuck", "CF.jump_visible", "Sem.arith_sound", "Sem.sdiv_sound", "Sem.udiv_sound", "Sem.bitwise_sound", "Sem.shift_sound",
+THEOREMS = ["Types.Ty.access_path_accepted", "Types.Ty.address_path_accepted", "Types.Ty.inner_path_isLike", "Types.Ty.isLike_conc", "CF.control_flow_lowering_correct", "CF.lowering_correct", "CF.sim", "CF.scoper_accepted_never_stuck", "CF.jump_visible", "Sem.arith_sound", "Sem.sdiv_sound", "Sem.udiv_sound", "Sem.bitwise_sound", "Sem.shift_sound",
             "Sem.cmp_sound", "Sem.neg_sound", "Sem.complement_sound", "Sem.trunc_sound", "Sem.sext_sound",
             "Sem.zext_sound", "Sem.read_back", "Sem.wrap_eq_wrapW"]
 
